@@ -256,6 +256,9 @@ func zkLevel[X sigma.Statement, W sigma.Witness, A sigma.Statement, S sigma.Stat
 			tamper string
 		}
 		vs := []variant{{base, "none"}, {base, "a"}, {base, "e"}, {base, "z"}}
+		if p.exact() && p.AArity {
+			vs = append(vs, variant{base, "aarity"}) // the commitment arrives with one component too many
+		}
 		for ci := 0; ci < 5; ci++ { // no compiler coordinate here
 			vs = append(vs, variant{base.with(ci), "none"})
 		}
@@ -299,6 +302,9 @@ func zkLevel[X sigma.Statement, W sigma.Witness, A sigma.Statement, S sigma.Stat
 						if v.tamper == "a" {
 							cmV = fa
 						}
+						if v.tamper == "aarity" {
+							cmV = p.MkA(append(p.PA(cmP), 1))
+						}
 						stage = "r3"
 						msg, wt, err := vr.Round3(cmV)
 						if err != nil {
@@ -336,6 +342,9 @@ func zkLevel[X sigma.Statement, W sigma.Witness, A sigma.Statement, S sigma.Stat
 					if v.tamper == "a" {
 						cmV = fa
 					}
+					if v.tamper == "aarity" {
+						cmV = p.MkA(append(p.PA(cmP), 1))
+					}
 					stage = "r2"
 					ch, err := vr.Round2(cmV)
 					if err != nil {
@@ -357,7 +366,7 @@ func zkLevel[X sigma.Statement, W sigma.Witness, A sigma.Statement, S sigma.Stat
 					stage = "r4"
 					return vr.Verify(zV)
 				})
-				ev["ok"], ev["panic"], ev["stage"] = err == nil && pan == "", pan != "", stage
+				ev["ok"], ev["panic"], ev["stage"], ev["panicmsg"] = err == nil && pan == "", pan != "", stage, pan
 				// what each side saw (values that were never produced stay empty)
 				pa := func(a A, have bool) any {
 					if !have {
